@@ -71,7 +71,10 @@ def enumerate_histories(seed, depth, cfg, cfg_last=None, follow=None):
         if len(hist) >= depth:
             return
         last = len(hist) == depth - 1
-        c = cfg_last if (last and cfg_last is not None) else cfg
+        if isinstance(cfg, list):
+            c = cfg[min(len(hist), len(cfg) - 1)]
+        else:
+            c = cfg_last if (last and cfg_last is not None) else cfg
         for op in O.enabled(m, c):
             if ro and op[0] != "reopen":
                 continue
@@ -116,12 +119,15 @@ def target_kind(m, op):
 
 def compare(prop, r, s, m, op, tk, hist_handles, stage):
     """compare the real file with the model; returns True if equal"""
-    got = walker.canon(primary2(walker.walk(s.f, core=True)))
-    exp = walker.canon(m.t, drop=("%raw",))
+    tg, te = {}, {}
+    got = walker.canon(primary2(walker.walk(s.f, core=True)), table=tg)
+    exp = walker.canon(m.t, drop=("%raw",), table=te)
     if got == exp:
+        back = {v: k for k, v in tg.items()}
+        s.idmap = {mid: back[c] for mid, c in te.items() if c in back}   # model id -> real id
         return True, got
     keys = walker.diff_keys(exp, got)
-    sig = "%s|%s|%s|%s|model-mismatch:%s" % (prop, opsig(op), tk, stage, ",".join(keys)[:160])
+    sig = "%s|%s|%s|%s|model-mismatch:%s" % (prop, opsig(op), tk, stage, ",".join(keys[:2])[:160])
     r.viol(sig, "after %s the file differs from the reference model: %s" % (
         json.dumps(op, ensure_ascii=False), "; ".join(walker.diff(exp, got, limit=4))),
         {"diff": walker.diff(exp, got, limit=12)})
@@ -155,13 +161,16 @@ def check_cached(prop, r, s, m, op, tk):
     return True
 
 
-def run_history(prop, case, r, full_reopen=True, check_handles=False):
+def run_history(prop, case, r, full_reopen=True, check_handles=False, post=None):
     """case: {"seed":..., "ops":[...], "h": optional list of handle ids per op}"""
     seed, hist = case["seed"], case["ops"]
     hs = case.get("h") or [None] * len(hist)
     m = seed_model(seed)
     s = O.Session(build=SEEDS[seed])
+    s.idmap = {}
     try:
+        if post is not None:
+            compare(prop, R(), s, m, ["seed"], "-", hs, "seed")
         for i, op in enumerate(hist):
             last = i == len(hist) - 1
             tk = target_kind(m, op)
@@ -172,6 +181,8 @@ def run_history(prop, case, r, full_reopen=True, check_handles=False):
             except O.Refused as rf:
                 refused = rf
             exc = None
+            prev_map = dict(s.idmap)
+            m_prev = m
             try:
                 O.impl_apply(s, op, hs[i])
             except Exception as e:  # noqa
@@ -203,6 +214,9 @@ def run_history(prop, case, r, full_reopen=True, check_handles=False):
                     r.violations.pop()
                     r.bump("pruned_after_earlier_violation")
                 return
+            if last and post is not None and refused is None:
+                if post(r, s, m_prev, m, op, tk, prev_map) is False:
+                    return
         r.states.add(jhash(got))
         # end of history: close, reopen read-only and read-write
         before = walker.walk(s.f)
